@@ -63,10 +63,18 @@ func NewDB(conn *sql.DB, schema *Schema) *DB {
 		Many: func(ctx context.Context, items []interface{}) ([]interface{}, error) {
 			table := items[0].(*BaseSelectQuery).Table
 
-			// First, build the SQL query.
+			// First, build the SQL query. Filter values are converted to the SQL
+			// values of their columns, exactly as for an unbatched query, so that
+			// int(5), int64(5), a *int64 pointing at 5 and a named integer type all
+			// denote the same column value - in the SQL arguments and when fetched
+			// rows are matched back to the filters below.
 			filters := make([]Filter, 0, len(items))
 			for _, item := range items {
-				filters = append(filters, item.(*BaseSelectQuery).Filter)
+				filter, err := table.driverValues(item.(*BaseSelectQuery).Filter)
+				if err != nil {
+					return nil, err
+				}
+				filters = append(filters, filter)
 			}
 			clause, args := makeBatchQuery(filters)
 			query, err := db.Schema.makeSelect(table.Type, nil, &SelectOptions{
@@ -95,17 +103,15 @@ func NewDB(conn *sql.DB, schema *Schema) *DB {
 
 			// Finally, match the returned rows against the queries.
 			matcher := newMatcher()
-			for i, item := range items {
-				query := item.(*BaseSelectQuery)
-				// XXX: This needs more rigor, and a test. For now, call coerceMap on rows
-				// and filters to flatten out all pointers to values, etc., to copy what
-				// the row tester does when matching against the binlog. This way, a filter
-				// specifying age=48 will match a value *age=48.
-				matcher.add(i, coerceMap(query.Filter))
+			for i := range items {
+				matcher.add(i, filters[i])
 			}
 			results := make([][]interface{}, len(items))
 			for _, row := range rows {
-				f := coerceMap(table.extractRow(row))
+				f, err := table.driverValues(table.extractRow(row))
+				if err != nil {
+					return nil, err
+				}
 				for _, idx := range matcher.match(f) {
 					i := idx.(int)
 					results[i] = append(results[i], row)
@@ -312,6 +318,33 @@ func (db *DB) runExplainQuery(ctx context.Context, clause string, args []interfa
 	return nil
 }
 
+// driverValues converts the values of a filter (or of a row) to the SQL values
+// of their columns.
+func (t *Table) driverValues(m map[string]interface{}) (Filter, error) {
+	values := make(Filter, len(m))
+	for name, value := range m {
+		column, ok := t.ColumnsByName[name]
+		if !ok {
+			return nil, fmt.Errorf("unknown column %s", name)
+		}
+		v, err := column.Descriptor.Valuer(reflect.ValueOf(value)).Value()
+		if err != nil {
+			return nil, fmt.Errorf("sqlgen: filter error for `%s`.`%s`: %v", t.Name, column.Name, err)
+		}
+		values[name] = v
+	}
+	return values, nil
+}
+
+func hasNil(values []interface{}) bool {
+	for _, v := range values {
+		if v == nil {
+			return true
+		}
+	}
+	return false
+}
+
 func (db *DB) BaseQuery(ctx context.Context, query *BaseSelectQuery) ([]interface{}, error) {
 	selectQuery, err := query.MakeSelectQuery()
 	if err != nil {
@@ -322,7 +355,10 @@ func (db *DB) BaseQuery(ctx context.Context, query *BaseSelectQuery) ([]interfac
 		return nil, err
 	}
 
-	if query.Options == nil && !db.HasTx(ctx) && batch.HasBatching(ctx) {
+	// A filter on NULL (`column IS NULL`) cannot be expressed in the IN lists of
+	// a combined query, where a NULL argument matches nothing: such a query runs
+	// on its own.
+	if query.Options == nil && !db.HasTx(ctx) && batch.HasBatching(ctx) && !hasNil(selectQuery.Options.Values) {
 		rows, err := db.batchFetch.Invoke(ctx, query)
 		if err != nil {
 			return nil, err
